@@ -13,7 +13,7 @@
    [blocks_ok]: well-formed CIDs, sections within MaxAllowedSectionSize; [hashes_ok hok]: every block
    hashes to its CID; [cids_indexable]: CIDs of at most 2048 bytes (MaxIndexCidSize); sizes < 2^63. *)
 From GoCar Require Import Bytes Varint Cid Header Frame V2Header Scan Index Store CliCmds.
-From GoCarProofs Require Import StoreInv CliBase CliWalk CliProducers CliConcat CliFilter CliClosure CliTheorems CliExamples.
+From GoCarProofs Require Import StoreInv CliBase CliWalk CliProducers CliConcat CliFilter CliClosure CliTheorems CliGet CliExamples.
 
 (* ---- car list / car root ------------------------------------------------------------------------------ *)
 Theorem C19_list :
@@ -295,6 +295,59 @@ Theorem C19_verify_rejects_rootless :
     verify_car hok hdrdec file = Err EOther.
 Proof. exact verify_rootless. Qed.
 Print Assumptions C19_verify_rejects_rootless.
+
+(* ---- car get-block ------------------------------------------------------------------------------------------------- *)
+(* C19_get_block, partial: for a CARv1 or an index-less CARv2 (the read-only blockstore generates its
+   index), under the executable guard [candidates_ok] -- the offsets the generated index yields for
+   the key are section starts and one of them carries the key's multihash (index soundness and
+   completeness, C03; evaluated on every generated case) -- the command prints the exact data bytes
+   of a block of the archive with the key's multihash. *)
+Theorem C19_get_block_partial :
+  forall (_ : bytes -> bytes -> option bool) hdrdec, hdrdec pragma_body = Some ([], 2) ->
+  forall hb roots bs file key kp,
+    hdr_ok hdrdec hb roots -> blocks_ok bs -> cids_indexable bs -> no_index_input hb bs file ->
+    cid_parse key = Some kp -> is_identity kp = false ->
+    candidates_ok hb bs (idx_getall (generated_index hb bs) (c_mhcode kp) (c_digest kp)) key = true ->
+    exists c d, In (c, d) bs /\ same_mh c key = true /\ get_block hdrdec file key = Ok d.
+Proof. exact get_block_generated. Qed.
+Print Assumptions C19_get_block_partial.
+
+(* the same for a CARv2 that embeds an index (any bytes that index.ReadFrom accepts) *)
+Theorem C19_get_block_embedded_index_partial :
+  forall (_ : bytes -> bytes -> option bool) hdrdec, hdrdec pragma_body = Some ([], 2) ->
+  forall hb roots bs hi lo dpad ipad ibytes i rest key kp,
+    hdr_ok hdrdec hb roots -> blocks_ok bs -> hi < two64 -> lo < two64 ->
+    51 + dpad + blen (payload_hb hb bs) + ipad + blen ibytes < two63 ->
+    idx_read ibytes = Ok (i, rest) ->
+    cid_parse key = Some kp -> is_identity kp = false ->
+    candidates_ok hb bs (idx_getall i (c_mhcode kp) (c_digest kp)) key = true ->
+    exists c d, In (c, d) bs /\ same_mh c key = true /\
+      get_block hdrdec (v2file hi lo dpad (51 + dpad + blen (payload_hb hb bs) + ipad) (payload_hb hb bs)
+                               (zerosN ipad ++ ibytes)) key = Ok d.
+Proof. exact get_block_embedded. Qed.
+Print Assumptions C19_get_block_embedded_index_partial.
+
+(* a key no block carries: "not found" (exit status 1), under index soundness alone *)
+Theorem C19_get_block_absent_partial :
+  forall (_ : bytes -> bytes -> option bool) hdrdec, hdrdec pragma_body = Some ([], 2) ->
+  forall hb roots bs file key kp,
+    hdr_ok hdrdec hb roots -> blocks_ok bs -> cids_indexable bs -> no_index_input hb bs file ->
+    cid_parse key = Some kp -> is_identity kp = false ->
+    existsb (fun b => same_mh (fst b) key) bs = false ->
+    candidates_sound hb bs (idx_getall (generated_index hb bs) (c_mhcode kp) (c_digest kp)) = true ->
+    get_block hdrdec file key = Err ENotFound.
+Proof. exact get_block_generated_absent. Qed.
+Print Assumptions C19_get_block_absent_partial.
+
+(* identity keys: the block is the digest, whether or not the archive contains it (no guard) *)
+Theorem C19_get_block_identity :
+  forall (_ : bytes -> bytes -> option bool) hdrdec, hdrdec pragma_body = Some ([], 2) ->
+  forall hb roots bs file key kp,
+    hdr_ok hdrdec hb roots -> blocks_ok bs -> cids_indexable bs -> no_index_input hb bs file ->
+    cid_parse key = Some kp -> is_identity kp = true ->
+    get_block hdrdec file key = Ok (c_digest kp).
+Proof. exact get_block_identity. Qed.
+Print Assumptions C19_get_block_identity.
 
 (* ---- car concat ------------------------------------------------------------------------------------------------------ *)
 (* C19_concat_blocks (partial: executable guard ver <> 2) with its closure: for inputs that each
